@@ -580,6 +580,9 @@ func scenTerm(out *scenOut, r *rng, thorough bool) {
 	}
 	quitBeforeRun(out, false)
 	quitBeforeRun(out, true)
+	for _, cause := range []string{"quitmsg", "interrupt", "quitapi"} {
+		endWithManyBlockedCommands(out, cause, 400)
+	}
 	for _, cause := range []string{"quitmsg", "quitapi", "interrupt", "kill", "ctx", "panic-update", "readerr"} {
 		noRendererRuns(out, cause)
 	}
@@ -674,6 +677,7 @@ func scenAPI(out *scenOut, r *rng, thorough bool) {
 	for _, cause := range []string{"quit", "kill"} {
 		noRendererStalledOutput(out, cause)
 	}
+	sendLongBeforeRun(out)
 	var wg sync.WaitGroup
 	sem := make(chan struct{}, 8)
 	for _, c := range causes {
@@ -1546,5 +1550,105 @@ func noRendererStalledOutput(out *scenOut, cause string) {
 	if len(stuck) > 0 {
 		out.fail(finding{Property: "C13", Class: "new", What: "calls that never returned although the program has ended (program without a renderer, stalled output)", Input: desc,
 			Expected: "all return", Observed: strings.Join(stuck, ", ")})
+	}
+}
+
+// endWithManyBlockedCommands: n commands that never return are running (far more than any limit on
+// concurrent commands could be) when the program is asked to end: Run returns with the right error
+// (C04: "commands that never return" never delay the program's exit, however many).
+func endWithManyBlockedCommands(out *scenOut, cause string, n int) {
+	ctl := newRecCtl()
+	never := make(chan struct{})
+	defer close(never)
+	var started int32
+	ctl.onUpdate = func(m tea.Msg, v int) tea.Cmd {
+		if u, ok := m.(userMsg); ok && u.Sender == 9 {
+			cmds := make([]tea.Cmd, n)
+			for i := range cmds {
+				cmds[i] = func() tea.Msg { atomic.AddInt32(&started, 1); <-never; return nil }
+			}
+			return tea.Batch(cmds...)
+		}
+		return nil
+	}
+	run := startProgram(ctl, nil, tea.WithInput(nil), tea.WithoutSignalHandler())
+	desc := fmt.Sprintf("%d commands that never return are in flight, then %s", n, cause)
+	waitFor(2*time.Second, func() bool { return ctl.log.has("view-exit", "") })
+	run.p.Send(userMsg{9, 0})
+	waitFor(3*time.Second, func() bool { return atomic.LoadInt32(&started) >= int32(n) })
+	time.Sleep(30 * time.Millisecond)
+	want := "nil"
+	ended := make(chan struct{})
+	go func() {
+		defer close(ended)
+		switch cause {
+		case "quitmsg":
+			run.p.Send(tea.QuitMsg{})
+		case "quitapi":
+			run.p.Quit()
+		case "interrupt":
+			run.p.Send(tea.InterruptMsg{})
+		}
+	}()
+	if cause == "interrupt" {
+		want = "interrupted"
+	}
+	out.record(fmt.Sprintf("end-with-%d-blocked-commands/%s", n, cause), desc)
+	if !run.wait(4 * time.Second) {
+		out.fail(finding{Property: "C04", Class: "new", What: "Run does not return although it was asked to end (many commands that never return are in flight)", Input: desc,
+			Expected: "Run returns " + want, Observed: fmt.Sprintf("still running after 4 s; %d of %d commands had been started", atomic.LoadInt32(&started), n)})
+		run.p.Kill()
+		run.wait(3 * time.Second)
+		return
+	}
+	if got := errClass(run.err); got != want {
+		out.fail(finding{Property: "C04", Class: "new", What: "wrong Run result", Input: desc, Expected: want, Observed: got})
+	}
+}
+
+// sendLongBeforeRun: Send, Println and Quit are called 3.4 s before the program is started (a
+// producer goroutine that is up long before the UI): "before the program starts, Send blocks until
+// it is running" - for however long - and the messages are then delivered in order.
+func sendLongBeforeRun(out *scenOut) {
+	ctl := newRecCtl()
+	p := tea.NewProgram(recModel{c: ctl}, tea.WithInput(nil), tea.WithOutput(&safeBuffer{}), tea.WithoutSignalHandler())
+	desc := "Send(a), Println, Send(b) by one goroutine 3.4 s before Run"
+	returned := make(chan struct{})
+	go func() {
+		p.Send(userMsg{4, 0})
+		p.Println("early")
+		p.Send(userMsg{4, 1})
+		close(returned)
+	}()
+	select {
+	case <-returned:
+		out.fail(finding{Property: "C13", Class: "new", What: "Send returned although the program had not been started (the message cannot have been delivered)", Input: desc,
+			Expected: "blocks until the program is running", Observed: "returned before Run"})
+		return
+	case <-time.After(3400 * time.Millisecond):
+	}
+	out.record("send-long-before-run", desc)
+	done := make(chan struct{})
+	go func() { p.Run(); close(done) }()
+	select {
+	case <-returned:
+	case <-time.After(3 * time.Second):
+		out.fail(finding{Property: "C13", Class: "new", What: "Send called before the program started did not return once it was running", Input: desc})
+	}
+	waitFor(2*time.Second, func() bool { return ctl.log.has("update-exit", "u4.1") })
+	var got []string
+	for _, u := range updatesOf(ctl.log.snapshot()) {
+		if strings.HasPrefix(u, "u4.") || strings.HasPrefix(u, "printline") {
+			got = append(got, u)
+		}
+	}
+	if want := `u4.0 printline "early" u4.1`; strings.Join(got, " ") != want {
+		out.fail(finding{Property: "C13", Class: "new", What: "messages sent before the program started were not delivered (in order) once it was running", Input: desc, Expected: want, Observed: strings.Join(got, " ")})
+	}
+	p.Quit()
+	select {
+	case <-done:
+	case <-time.After(3 * time.Second):
+		p.Kill()
 	}
 }
